@@ -346,7 +346,7 @@ static void fm_event(int kind, long pnum, long a)
     if (pnum < 0 || pnum >= MAXP) return;
     int spinning = (kind == SLUV_AWAIT_SPIN) || (kind == SLUV_SCHED_EXIT && a == EMPTY);
     if (!spinning) {   /* entering the scheduler, leaving its critical section empty-handed and announcing a wait are neutral */
-        if (kind != SLUV_SCHED_ENTER && kind != SLUV_WAIT_COL && !(kind == SLUV_SCHED_TAKE && a == EMPTY)) __atomic_add_fetch(&fm_epoch, 1, __ATOMIC_SEQ_CST);
+        if (kind != SLUV_SCHED_ENTER && kind != SLUV_WAIT_COL && kind != 100 && !(kind == SLUV_SCHED_TAKE && a == EMPTY)) __atomic_add_fetch(&fm_epoch, 1, __ATOMIC_SEQ_CST);
         return; }
     long e = __atomic_load_n(&fm_epoch, __ATOMIC_SEQ_CST);
     if (fm_seen[pnum] != e) { __atomic_store_n(&fm_spin[pnum], 0, __ATOMIC_SEQ_CST); __atomic_store_n(&fm_seen[pnum], e, __ATOMIC_SEQ_CST); }
@@ -421,6 +421,7 @@ static int is_yield_kind(int k)
     case SLUV_SCHED_ENTER: case SLUV_SCHED_EXIT: case SLUV_RELEASE_PRE: case SLUV_RELEASE_POST: case SLUV_PANEL_DONE_PRE:
     case SLUV_PANEL_DONE: case SLUV_NEWNSUPER: case SLUV_U_ALLOC: case SLUV_LSUB_ALLOC: case SLUV_DYN_SETMAP: case SLUV_AWAIT_SPIN:
     case SLUV_PRUNE_BEGIN: case SLUV_PRUNE_END: case SLUV_COL_BEGIN: case SLUV_DFS_BEGIN: case SLUV_DFS_END: case SLUV_DFS_STEP: case SLUV_PRUNE_STEP: return 1;
+    case 100 /* HXV_LOCK_ACQUIRE (wrap.c) */: return 1;
     default: return 0;
     }
 }
@@ -439,7 +440,7 @@ void slu_mt_verif_event(int kind, long pnum, long a, long b, long c, const void 
         if (kind == SLUV_PRUNE_STEP && b == 3 && !g_yield_prune_inner) return;
         int spinning = (kind == SLUV_AWAIT_SPIN) || (kind == SLUV_SCHED_EXIT && a == EMPTY);
         if (spinning) { g_mon.spins++; blocked[pnum] = 1; }
-        else if (kind != SLUV_SCHED_ENTER) { idle_rounds = 0; for (int t = 0; t < s_P; ++t) blocked[t] = 0; }
+        else if (kind != SLUV_SCHED_ENTER && kind != 100 /* asking for a lock is not progress */) { idle_rounds = 0; for (int t = 0; t < s_P; ++t) blocked[t] = 0; }
         g_mon.yields++;
         HX_LOCK(&cm);
         ++ev_index;
